@@ -33,7 +33,7 @@ theorem explicitFree_updFlags {kw : ChildKw} {f : Flags} (h : ExplicitFree f) : 
 
 theorem nodeInfo_free (st : DStack) (n : Node) (h : ExplicitFree n.flags) : nodeInfo st n = {} := by
   obtain ⟨h1, h2, h3, h4, h5⟩ := h
-  simp only [nodeInfo, h1, h2, h3, h4, h5, keepFlag]
+  simp only [nodeInfo, h1, h2, h3, h4, h5, keepFlag, keepDel]
 
 theorem adopt_flags (pf : Flags) (pk : CompKind) (n : Node) :
     (adopt pf pk n).flags = match childKw pf pk with
@@ -122,11 +122,13 @@ theorem keysNodup_aset {key : Key} {v : Node} : ∀ {l : List (Key × Node)},
       simp only [keysNodup, Bool.and_eq_true]
       exact ⟨keyFresh_aset hne h.1, keysNodup_aset h.2⟩
 
+theorem plainTag_empty : plainTag {} = .none := rfl
+
 /-! ### dump ∘ parse is the identity on trees built from tag-free documents -/
 
-/-- the node, dumped with an empty stack and parsed again below the same parent, is itself -/
+/-- the node, dumped with any stack and parsed again below the same parent, is itself -/
 def RT (env : Env) (parent : Option (Flags × CompKind)) (n : Node) : Prop :=
-  ∃ r', representWith {} n = .ok r' ∧ constructTD env parent r' = .ok n
+  ∀ st, constructTD env parent (representWith st n) = .ok n
 
 def AllRT (env : Env) (parent : Option (Flags × CompKind)) (cs : List (Key × Node)) : Prop :=
   ∀ kv, kv ∈ cs → RT env parent kv.2
@@ -143,16 +145,15 @@ theorem constructTDMap_nodup (env : Env) (pf : Flags) (pk : CompKind) :
 
 /-- re-parsing the dumped children of a mapping rebuilds exactly these children -/
 theorem representMap_rt (env : Env) (pf : Flags) (pk : CompKind) :
-    ∀ (cs acc : List (Key × Node)), AllRT env (some (pf, pk)) cs → keysNodup (acc ++ cs) = true →
-    ∃ items', representMap {} cs = .ok items' ∧ constructTDMap env pf pk items' acc = .ok (acc ++ cs)
-  | [], acc, _, _ => ⟨[], by simp [representMap], by simp [constructTDMap]⟩
-  | (key, c) :: rest, acc, hall, hn => by
-    obtain ⟨r', hr1, hr2⟩ := hall (key, c) (by simp)
+    ∀ (cs acc : List (Key × Node)) (st : DStack), AllRT env (some (pf, pk)) cs → keysNodup (acc ++ cs) = true →
+    constructTDMap env pf pk (representMap st cs) acc = .ok (acc ++ cs)
+  | [], acc, _, _, _ => by simp [representMap, constructTDMap]
+  | (key, c) :: rest, acc, st, hall, hn => by
+    have hr2 : constructTD env (some (pf, pk)) (representWith st c) = .ok c := hall (key, c) (by simp) st
     have hfresh := keysNodup_append_cons hn
-    obtain ⟨items', hi1, hi2⟩ := representMap_rt env pf pk rest (acc ++ [(key, c)])
+    have hi2 := representMap_rt env pf pk rest (acc ++ [(key, c)]) st
       (fun kv hkv => hall kv (List.mem_cons_of_mem _ hkv)) (by simpa using hn)
-    refine ⟨(key, r') :: items', by simp [representMap, hr1, hi1], ?_⟩
-    simp only [constructTDMap, hr2, aset_fresh hfresh, hi2]
+    simp only [representMap, constructTDMap, hr2, aset_fresh hfresh, hi2]
     simp
 
 mutual
@@ -168,28 +169,28 @@ theorem td_rt (env : Env) : ∀ (parent : Option (Flags × CompKind)) (r : Raw) 
     obtain ⟨f', hf'⟩ := adoptBy_leaf parent (bareFlags env) (.scalar v.toScalar)
     refine ⟨?_, hfree⟩
     rw [hf'] at hfree ⊢
-    have hni : nodeInfo {} (.leaf f' (.scalar v.toScalar)) = {} := nodeInfo_free _ _ hfree
+    intro st
+    have hni : nodeInfo st (.leaf f' (.scalar v.toScalar)) = {} := nodeInfo_free _ _ hfree
     cases hs : v.toScalar with
     | null =>
       rw [hs] at hni hf'
-      refine ⟨.scalar .null {} .empty, by simp [representWith, representLeaf, hni], ?_⟩
-      simp only [constructTD, wrapScalar]
+      simp only [representWith, representLeaf, hni, constructTD, wrapScalar]
       rw [← hf']; rfl
     | bool b =>
       rw [hs] at hni hf'
-      refine ⟨.scalar .none {} (.lit (.bool b)), by simp [representWith, representLeaf, hni, isShortcut, CtorKw.flagCount, plainTag, CtorKw.isEmpty], ?_⟩
+      simp only [representWith, representLeaf, hni, plainTag_empty]
       simp only [constructTD, RVal.toScalar]; rw [← hf']
     | int i =>
       rw [hs] at hni hf'
-      refine ⟨.scalar .none {} (.lit (.int i)), by simp [representWith, representLeaf, hni, isShortcut, CtorKw.flagCount, plainTag, CtorKw.isEmpty], ?_⟩
+      simp only [representWith, representLeaf, hni, plainTag_empty]
       simp only [constructTD, RVal.toScalar]; rw [← hf']
     | float x =>
       rw [hs] at hni hf'
-      refine ⟨.scalar .none {} (.lit (.float x)), by simp [representWith, representLeaf, hni, isShortcut, CtorKw.flagCount, plainTag, CtorKw.isEmpty], ?_⟩
+      simp only [representWith, representLeaf, hni, plainTag_empty]
       simp only [constructTD, RVal.toScalar]; rw [← hf']
     | str s =>
       rw [hs] at hni hf'
-      refine ⟨.scalar .none {} (.lit (.str s)), by simp [representWith, representLeaf, hni, isShortcut, CtorKw.flagCount, plainTag, CtorKw.isEmpty], ?_⟩
+      simp only [representWith, representLeaf, hni, plainTag_empty]
       simp only [constructTD, RVal.toScalar]; rw [← hf']
   | parent, .seq t kw items, n, hu, h => by
     simp only [Untagged, Bool.and_eq_true, beq_iff_eq] at hu
@@ -204,12 +205,13 @@ theorem td_rt (env : Env) : ∀ (parent : Option (Flags × CompKind)) (r : Raw) 
     · cases h
     · rename_i cs hcs
       cases h
-      obtain ⟨items', hi1, hi2⟩ := tdList_rt env f' .list 0 items cs hitems hcs
-      refine ⟨⟨.seq .none {} items', ?_, ?_⟩, hfree⟩
-      · have hni : nodeInfo {} (.comp f' .list cs) = {} := nodeInfo_free _ _ hfree
-        simp [representWith, hni, CompKind.isDictFam, pushStack, isShortcut, CtorKw.flagCount, CompKind.tagged, hi1,
-          representComp, plainTag, CtorKw.isEmpty]
-      · simp only [constructTD, hf', hi2]
+      refine ⟨?_, hfree⟩
+      intro st
+      have hni : nodeInfo st (.comp f' .list cs) = {} := nodeInfo_free _ _ hfree
+      have hi2 := tdList_rt env f' .list 0 items cs hitems hcs (pushStack st {} (handedDelete f' .list))
+      simp only [representWith, hni, CompKind.isDictFam, Bool.false_eq_true, if_false, representComp,
+        plainTag_empty]
+      simp only [constructTD, hf', hi2]
   | parent, .map t kw items, n, hu, h => by
     simp only [Untagged, Bool.and_eq_true, beq_iff_eq] at hu
     obtain ⟨ht, hitems⟩ := hu
@@ -225,19 +227,21 @@ theorem td_rt (env : Env) : ∀ (parent : Option (Flags × CompKind)) (r : Raw) 
       cases h
       have hall := tdMap_rt env f' .dict items [] cs hitems (fun kv hkv => by cases hkv) hcs
       have hnd := constructTDMap_nodup env f' .dict items [] cs (by simp [keysNodup]) hcs
-      obtain ⟨items', hi1, hi2⟩ := representMap_rt env f' .dict cs [] hall (by simpa using hnd)
-      refine ⟨⟨.map .none {} items', ?_, ?_⟩, hfree⟩
-      · have hni : nodeInfo {} (.comp f' .dict cs) = {} := nodeInfo_free _ _ hfree
-        simp [representWith, hni, CompKind.isDictFam, pushStack, isShortcut, CtorKw.flagCount, CompKind.tagged, hi1,
-          representComp, plainTag, CtorKw.isEmpty]
-      · simp only [constructTD, hf', hi2]; simp
+      refine ⟨?_, hfree⟩
+      intro st
+      have hi2 := representMap_rt env f' .dict cs [] (pushStack st {} (handedDelete f' .dict)) hall (by simpa using hnd)
+      have hni : nodeInfo st (.comp f' .dict cs) = {} := nodeInfo_free _ _ hfree
+      simp only [representWith, hni, CompKind.isDictFam, if_true, representComp,
+        plainTag_empty]
+      simp only [constructTD, hf', hi2]; simp
 theorem tdList_rt (env : Env) (pf : Flags) (pk : CompKind) :
     ∀ (i : Nat) (items : List Raw) (cs : List (Key × Node)), untaggedList items = true →
     constructTDList env pf pk i items = .ok cs →
-    ∃ items', representSeq {} cs = .ok items' ∧ constructTDList env pf pk i items' = .ok cs
+    ∀ st, constructTDList env pf pk i (representSeq st cs) = .ok cs
   | _, [], cs, _, h => by
     simp only [constructTDList] at h; cases h
-    exact ⟨[], by simp [representSeq], by simp [constructTDList]⟩
+    intro st
+    simp [representSeq, constructTDList]
   | i, r :: rest, cs, hu, h => by
     simp only [untaggedList, Bool.and_eq_true] at hu
     simp only [constructTDList] at h
@@ -248,9 +252,10 @@ theorem tdList_rt (env : Env) (pf : Flags) (pk : CompKind) :
       · cases h
       · rename_i ns hns
         cases h
-        obtain ⟨⟨r', hr1, hr2⟩, _⟩ := td_rt env (some (pf, pk)) r n hu.1 hn
-        obtain ⟨items', hi1, hi2⟩ := tdList_rt env pf pk (i + 1) rest ns hu.2 hns
-        exact ⟨r' :: items', by simp [representSeq, hr1, hi1], by simp [constructTDList, hr2, hi2]⟩
+        intro st
+        have hr2 : constructTD env (some (pf, pk)) (representWith st n) = .ok n := (td_rt env (some (pf, pk)) r n hu.1 hn).1 st
+        have hi2 := tdList_rt env pf pk (i + 1) rest ns hu.2 hns st
+        simp [representSeq, constructTDList, hr2, hi2]
 theorem tdMap_rt (env : Env) (pf : Flags) (pk : CompKind) :
     ∀ (items : List (Key × Raw)) (acc cs : List (Key × Node)), untaggedMap items = true →
     AllRT env (some (pf, pk)) acc → constructTDMap env pf pk items acc = .ok cs → AllRT env (some (pf, pk)) cs
@@ -270,26 +275,33 @@ end
 
 /-! ### leaves whose keywords are all kept by the dumper -/
 
-/-- no keyword repeats a type default of a leaf parsed in source `env` (such a keyword is elided by the
-    dumper: findings D17a / D17f / D17g) -/
-def noDefaultKw (env : Env) (kw : CtorKw) : Bool :=
+/-- no keyword of a leaf repeats what the re-parsed leaf gets anyway at the top of a document: the
+    default priority, `delete = False` (the scalar class default), the default `allow_new` -/
+def noDefaultKw (kw : CtorKw) : Bool :=
   kw.prio != some Tables.defaultPriority && kw.del != some Tables.defaultDeleteNode &&
-  kw.new != some Tables.defaultAllowNew && kw.safe != some env.dSafe
+  kw.new != some Tables.defaultAllowNew
 
 theorem keepFlag_top {α : Type} [DecidableEq α] (cur : Option α) (d : α) (h : cur ≠ some d) :
-    keepFlag cur none d = cur := by
+    keepFlag cur none (some d) = cur := by
   cases cur with
   | none => rfl
   | some c =>
     have : c ≠ d := fun e => h (by rw [e])
     simp [keepFlag, this]
 
-/-- at the top of the dumper's stack every keyword of such a leaf is written -/
-theorem nodeInfo_leaf_top (env : Env) (kw : CtorKw) (k : LeafKind) (h : noDefaultKw env kw = true) :
+theorem keepFlag_top_none {α : Type} [DecidableEq α] (cur : Option α) : keepFlag cur none none = cur := by
+  cases cur <;> simp [keepFlag]
+
+theorem keepDel_top_leaf (cur : Option Bool) (h : cur ≠ some Tables.defaultDeleteNode) :
+    keepDel false false cur none Tables.defaultDeleteNode = cur := by
+  rcases cur with _ | _ | _ <;> simp [keepDel, Tables.defaultDeleteNode] at h ⊢
+
+/-- at the top of the dumper's stack every keyword of such a leaf is written (`safe` always is) -/
+theorem nodeInfo_leaf_top (env : Env) (kw : CtorKw) (k : LeafKind) (h : noDefaultKw kw = true) :
     nodeInfo {} (.leaf (mkFlags env kw) k) = kw := by
   simp only [noDefaultKw, Bool.and_eq_true, bne_iff_ne, ne_eq] at h
-  obtain ⟨⟨⟨h1, h2⟩, h3⟩, h4⟩ := h
-  simp only [nodeInfo, Node.flags, mkFlags, Node.defaultDel, keepFlag_top _ _ h1, keepFlag_top _ _ h2,
-    keepFlag_top _ _ h3, keepFlag_top _ _ h4]
+  obtain ⟨⟨h1, h2⟩, h3⟩ := h
+  simp only [nodeInfo, Node.flags, mkFlags, Node.defaultDel, Node.isFuncNode, Node.isComp, keepFlag_top _ _ h1,
+    keepDel_top_leaf _ h2, keepFlag_top _ _ h3, keepFlag_top_none]
 
 end AY
